@@ -1,8 +1,8 @@
 SPECIFICATION Spec
 CONSTANTS
   MarkEarly = FALSE
-  MaxRes = 12
-  MaxDepth = 8
+  MaxRes = 10
+  MaxDepth = 6
 INVARIANT LevelsAreDirectCoarsenings
 INVARIANT NeverReadsUnfinished
 INVARIANT RecognisedOnlyWhenComplete
